@@ -868,7 +868,14 @@ Definition gen_ctor_free (id : nat) (s : pspec) : res param :=
 Definition gen_attach (dst : option string) (t T : param) : res param :=
   match gen_update_at dst (gen_call_add t) T with MOk T' _ => Val T' | MExn e _ => Raise e end.
 
-Definition gen_step : state -> op -> state * out := step_with gen_step_root gen_ctor_free gen_attach.
+(* T.remove(key) through the generated remove: the tree that is left and the object handed back *)
+Definition gen_remove (T : param) (key : string) : res (param * param) :=
+  match gen_InputParameterMap_remove (fuel_of key) T key with
+  | MOk T' x => Val (T', x)
+  | MExn e _ => Raise e
+  end.
+
+Definition gen_step : state -> op -> state * out := step_with gen_step_root gen_remove gen_ctor_free gen_attach.
 
 Fixpoint gen_run (st : state) (ops : list op) : state :=
   match ops with [] => st | o :: r => gen_run (fst (gen_step st o)) r end.
@@ -886,10 +893,16 @@ Proof.
   unfold mres_of. destruct (py_modify_at dst (map_add t) T); reflexivity.
 Qed.
 
+Lemma gen_remove_eq : forall T key, gen_remove T key = py_remove T key.
+Proof.
+  intros. unfold gen_remove. rewrite gen_InputParameterMap_remove_eq. unfold py_remove, fuel_of, fuel_for.
+  destruct (remove_lit _ T key) as [[m x]|e]; reflexivity.
+Qed.
+
 Theorem gen_step_eq : forall st o, gen_step st o = step repaired st o.
 Proof.
   intros. unfold gen_step, step. apply step_with_ext;
-    [intros; apply gen_step_root_eq | intros; apply gen_ctor_free_eq | intros; apply gen_attach_eq].
+    [intros; apply gen_step_root_eq | intros; apply gen_remove_eq | intros; apply gen_ctor_free_eq | intros; apply gen_attach_eq].
 Qed.
 
 Theorem gen_run_eq : forall ops st, gen_run st ops = run repaired st ops.
